@@ -6,7 +6,7 @@ package main
 //                      records, per seed, which rules of which property fired
 //                      when the seed was admitted.  The property's check must
 //                      still fire one of those rules on the patched tree.
-//   refactors*/<id>-*, tiny*/<id>-*   behaviour-preserving edits of the code
+//   refactors*/<id>-*, tiny*/<id>-*   behaviour-preserving edits (refactors5: harmless additive commits) of the code
 //                      realising property <id>; the property's check must
 //                      report nothing new on the patched tree.
 //
@@ -30,7 +30,7 @@ import (
 	"sync"
 )
 
-var benignCorpora = []string{"refactors", "refactors2", "refactors3", "refactors4", "tiny", "tiny2"}
+var benignCorpora = []string{"refactors", "refactors2", "refactors3", "refactors4", "refactors5", "tiny", "tiny2"}
 
 type corpusResult struct {
 	SeedsTried, SeedsCaught, SeedsSkipped    int
@@ -59,6 +59,7 @@ func runCorpus(id, repo, verif string, baseline []string) *corpusResult {
 	}
 	type job struct {
 		name, patch string
+		base        string   // patch to apply first (a seed made on top of a committed refactoring), or ""
 		expect      []string // nil: benign
 	}
 	var jobs []job
@@ -70,14 +71,14 @@ func runCorpus(id, repo, verif string, baseline []string) *corpusResult {
 	sort.Strings(seeds)
 	for _, s := range seeds {
 		if rules := exp[s][id]; len(rules) > 0 {
-			jobs = append(jobs, job{"seeded/" + s, filepath.Join(verif, "seeded", s, "patch.diff"), rules})
+			jobs = append(jobs, job{"seeded/" + s, filepath.Join(verif, "seeded", s, "patch.diff"), seedBase(verif, s), rules})
 		}
 	}
 	for _, corp := range benignCorpora {
 		ds, _ := filepath.Glob(filepath.Join(verif, corp, id+"-*"))
 		sort.Strings(ds)
 		for _, d := range ds {
-			jobs = append(jobs, job{corp + "/" + filepath.Base(d), filepath.Join(d, "patch.diff"), nil})
+			jobs = append(jobs, job{corp + "/" + filepath.Base(d), filepath.Join(d, "patch.diff"), "", nil})
 		}
 	}
 	sem := make(chan struct{}, par)
@@ -92,7 +93,11 @@ func runCorpus(id, repo, verif string, baseline []string) *corpusResult {
 			defer wg.Done()
 			sem <- struct{}{}
 			defer func() { <-sem }()
-			cmd := exec.Command(exe, "-patch", j.patch, "-prop", id, "-repo", repo)
+			patches := j.patch
+			if j.base != "" {
+				patches = j.base + "," + j.patch
+			}
+			cmd := exec.Command(exe, "-patch", patches, "-prop", id, "-repo", repo)
 			cmd.Env = append(os.Environ(), "ORASCHECK_BASELINE="+string(blJSON))
 			out, _ := cmd.CombinedOutput()
 			line := ""
@@ -154,6 +159,22 @@ func runCorpus(id, repo, verif string, baseline []string) *corpusResult {
 	return res
 }
 
+// seedBase returns the patch a seed was made on top of (meta.json "base":
+// "<corpus>/<dir>"), or "".
+func seedBase(verif, seed string) string {
+	b, err := os.ReadFile(filepath.Join(verif, "seeded", seed, "meta.json"))
+	if err != nil {
+		return ""
+	}
+	var m struct {
+		Base string `json:"base"`
+	}
+	if json.Unmarshal(b, &m) != nil || m.Base == "" {
+		return ""
+	}
+	return filepath.Join(verif, filepath.FromSlash(m.Base), "patch.diff")
+}
+
 // applyPatch applies a unified diff (as written by `git diff`) to dir.
 func applyPatch(dir, patch string) error {
 	abs, _ := filepath.Abs(patch)
@@ -187,9 +208,11 @@ func runOnePatch(id, patch, repo string) int {
 		fmt.Println(err)
 		return 2
 	}
-	if err := applyPatch(dir, patch); err != nil {
-		fmt.Println("PATCH-SKIPPED does not apply to the current tree:", strings.ReplaceAll(err.Error(), "\n", " "))
-		return 0
+	for _, one := range strings.Split(patch, ",") {
+		if err := applyPatch(dir, one); err != nil {
+			fmt.Println("PATCH-SKIPPED does not apply to the current tree:", strings.ReplaceAll(err.Error(), "\n", " "))
+			return 0
+		}
 	}
 	p, err := Load(dir, "linux", "amd64")
 	if err != nil {
